@@ -17,14 +17,15 @@ STATS = ["d-fu-li", "d-tajima", "f2", "f3", "f4", "fst", "king", "pi", "pi-xy", 
 RULE = ("(1) EVERY statistic (14) x EVERY shape with 1-4 axes and lengths 1-4 (340 shapes), zero/positive data; (2) view/fold/create option values at and "
         "beyond their bounds (axes, projection targets 0 / larger / wrong dimensionality / 2^63 / 2^64-1, precision 0/17/65535/65536/10^6, threads); "
         "(3) empty and 1-10 byte inputs to all four subcommands by path and stdin; (4) absurd declared shapes in text and npy headers (0, 2^32, 2^63, "
-        "wrapping products, up to 64 axes); (5) contradictory sample lists; (6) hostile bytes: every single-byte substitution {^01, ^80, 00, ff, +1} "
+        "wrapping products, up to 22000 axes); (5) contradictory sample lists; (6) hostile bytes: every single-byte substitution {^01, ^80, 00, ff, +1} "
         "at every offset of small vcf / vcf.gz / bgzf bcf / raw bcf / npy / text seed files (deterministic), the same on the uncompressed payload "
         "re-BGZF'd, plus seeded multi-site mutations, splices, digit runs -> huge numbers, truncations. Each run on the release and the "
         "overflow-checked binary. Verdict per run: exit 0, or exit != 0 with a diagnostic; refuting: exit 101 / 'panicked at', death by signal, "
         "non-zero exit with empty stderr, reproducible hang. Non-trivial: a run that did not exit 0 (i.e. the error path was exercised) or a "
         "degenerate-shape statistic; distinct = digest(argv, input).")
 ASSUMPTIONS = ["findings are keyed by (subcommand, normalised panic site); dependency sites are stable because Cargo.lock pins them",
-               "--threads above 1024 and headers declaring > 64 axes are out of scope (machine limits / quadratic slowness, not panics)"]
+               "--threads above 1024 is out of scope (whether the OS refuses that many threads depends on the machine's limits)",
+               "population counts between 20 and 25 are not generated: the 3^k-cell spectrum may or may not be allocatable on a given machine"]
 FLOORS = {"quick": {"evaluations": 30000, "distinct_nontrivial": 10000, "counts": {"stat_grid": 9000, "option_bounds": 300, "short_inputs": 300, "absurd_shapes": 150, "sample_lists": 60, "hostile_bytes": 15000}},
           "thorough": {"evaluations": 400000, "distinct_nontrivial": 150000, "counts": {"stat_grid": 9000, "hostile_bytes": 300000}}}
 NSHARD = 32
@@ -185,7 +186,9 @@ def part_absurd(S, p):
         texts.append(("#SHAPE=<%s/%s/0>\n" % (a, a)).encode())
     texts += [b"#SHAPE=<>\n1\n", b"#SHAPE=</>\n1\n", b"#SHAPE=<1//1>\n1\n", b"#SHAPE\n1\n", b"#SHAPE=<3>", b"#SHAPE=<3>\n1 2 x\n", b"#SHAPE=<3>\n1 2 1e999\n", b"#SHAPE=<3>\nnan inf -inf\n",
               ("#SHAPE=<%s>\n1\n" % "/".join(["1"] * 64)).encode(), ("#SHAPE=<%s>\n%s\n" % ("/".join(["2"] * 16), " ".join(["1"] * 65536))).encode(),
-              ("#SHAPE=<%s>\n\n" % "/".join(["4294967296"] * 2)).encode(), ("#SHAPE=<%s>\n\n" % "/".join(["65536"] * 4)).encode()]
+              ("#SHAPE=<%s>\n\n" % "/".join(["4294967296"] * 2)).encode(), ("#SHAPE=<%s>\n\n" % "/".join(["65536"] * 4)).encode(),
+              ("#SHAPE=<%s>\n1\n" % "/".join(["1"] * 1000)).encode(), ("#SHAPE=<%s>\n1\n" % "/".join(["1"] * 22000)).encode(),
+              ("#SHAPE=<%s>\n1 2\n" % "/".join(["1"] * 21999 + ["2"])).encode()]
     npys = []
     from ..oracle import npyfmt
     for shp in ("()", "(0,)", "(0, 0)", "(18446744073709551615,)", "(18446744073709551616,)", "(4294967296, 4294967296)", "(2305843009213693952,)", "(9223372036854775808, 2)",
@@ -223,6 +226,13 @@ def part_samples(S, p):
         run_case(S, ["create", "-s", l, "-p", "1"], vcf, "create", "sample-list", "sample_lists")
         f = E.tmpfile(l.replace(",", "\n").replace("=", "\t").encode() + b"\n", ".samples")
         run_case(S, ["create", "-S", f], vcf, "create", "sample-list", "sample_lists")
+    # dozens of populations: the spectrum has 3^k cells and cannot be allocated
+    big = G.random_callset(rng, nsamples=46, nrecords=2, complete_only=True, extras=False)
+    for k in (26, 30, 40, 41, 45):
+        if (k + p["i"]) % 4 == 0:
+            run_case(S, ["create", "-s", ",".join("%s=p%d" % (nm, j) for j, nm in enumerate(big.samples[:k]))], big.to_vcf(), "create", "sample-list many-populations", "sample_lists")
+            run_case(S, ["create", "-p", ",".join(["1"] * k), "-s", ",".join("%s=p%d" % (nm, j) for j, nm in enumerate(big.samples[:k]))], big.to_vcf(), "create",
+                     "sample-list many-populations", "sample_lists")
     for content in (b"", b"\n", b"\t\n", b"\tA\n", b"%s\tA\tB\n" % s[0].encode(), b"\xff\xfe\n", b"%s\n%s\tA\n\n%s\tB\n" % (s[0].encode(), s[1].encode(), s[0].encode())):
         run_case(S, ["create", "-S", E.tmpfile(content, ".samples")], vcf, "create", "sample-list", "sample_lists")
     run_case(S, ["create", "-S", "/nonexistent/samples"], vcf, "create", "sample-list", "sample_lists")
